@@ -77,12 +77,13 @@ type Topic struct {
 	Reply  []*Tmsg
 }
 
-// Element kinds: object oneof enum service topic.
+// Element kinds: object oneof enum service topic entity.
 type Element struct {
 	Kind    string
 	N       *Nested
 	Service *Service
 	Topic   *Topic
+	Entity  *Entity
 }
 
 type Import struct {
